@@ -76,6 +76,7 @@ func (fr *Frame) havocAll(s *State, g *Term, why string) {
 	na := fr.x.c.Fresh("alloc", SInt)
 	fr.x.assume(g, fr.x.c.IntCmp(">=", na, pre.alloc))
 	s.alloc = na
+	fr.x.bindHavocBound(na)
 	fr.x.note("unknown effects: " + why)
 }
 
@@ -200,6 +201,12 @@ func (fr *Frame) callWithArgs(s *State, g *Term, call *ssa.CallCommon, ins ssa.I
 		if callee.Parent() != nil && callee.Blocks != nil {
 			return fr.inlineCall(s, g, callee, args, nil, fr.spec)
 		}
+		if x.isLeafHelper(callee, 0) {
+			// a small loop-free helper of the repository that writes nothing and calls only modelled functions or
+			// other such helpers: its body is used in place (so extracting a helper is not a reason for an alarm)
+			x.note("inlined without contract (loop-free, store-free helper): " + shortKey(key))
+			return fr.inlineCall(s, g, callee, args, nil, fr.spec)
+		}
 		fr.havocAll(s, g, "call to "+shortKey(key)+" (no contract) at "+x.P.posStr(pos))
 		r := fr.freshResult(s, g, "call_"+callee.Name(), sig)
 		if r != nil {
@@ -226,6 +233,61 @@ func (fr *Frame) callWithArgs(s *State, g *Term, call *ssa.CallCommon, ins ssa.I
 		x.assumeWF(g, r, resultType(sig), s)
 	}
 	return r
+}
+
+// isLeafHelper: a function of the repository with a body, no loops, at most 80 instructions, no writes except to
+// its own non-escaping locals, no goroutines/defers/closures, and calls only to builtins, modelled functions or
+// (two levels deep) other leaf helpers without contracts.
+func (x *Exec) isLeafHelper(fn *ssa.Function, depth int) bool {
+	if fn == nil || fn.Blocks == nil || fn.Pkg == nil || depth > 2 {
+		return false
+	}
+	if _, ok := x.P.PkgByPath[fn.Pkg.Pkg.Path()]; !ok {
+		return false
+	}
+	if fn.TypeParams().Len() > 0 || len(fn.TypeArgs()) > 0 {
+		return false
+	}
+	n := 0
+	for _, b := range fn.Blocks {
+		for _, sc := range b.Succs {
+			if sc.Dominates(b) {
+				return false
+			}
+		}
+		for _, ins := range b.Instrs {
+			n++
+			switch v := ins.(type) {
+			case *ssa.Store:
+				a, ok := v.Addr.(*ssa.Alloc)
+				if !ok || a.Heap {
+					return false
+				}
+			case *ssa.MapUpdate, *ssa.Go, *ssa.Defer, *ssa.Send, *ssa.Select, *ssa.MakeClosure, *ssa.Panic, *ssa.RunDefers, *ssa.MakeChan:
+				return false
+			case *ssa.Alloc:
+				if v.Heap {
+					return false
+				}
+			case *ssa.Call:
+				if _, ok := v.Call.Value.(*ssa.Builtin); ok {
+					continue
+				}
+				cal := v.Call.StaticCallee()
+				if cal == nil {
+					return false
+				}
+				k := funcKey(cal)
+				if lookupModel(k) != nil {
+					continue
+				}
+				if x.P.Contracts[k] != nil || !x.isLeafHelper(cal, depth+1) {
+					return false
+				}
+			}
+		}
+	}
+	return n <= 80
 }
 
 func (fr *Frame) inlineCall(s *State, g *Term, callee *ssa.Function, args []*Term, bindings []*Term, spec bool) *Term {
@@ -344,6 +406,42 @@ func (fr *Frame) applyContract(s *State, g *Term, fc *FuncContract, callee *ssa.
 		}
 		fr.oblige("requires", shortKey(fc.Key)+"."+lab, pos, g, t, r.Text)
 	}
+	// call-site obligations stated by the calling function's contract
+	for top := fr; top != nil; top = top.parent {
+		if top.contract != nil {
+			for _, cr := range top.contract.CallRequires {
+				if !strings.HasSuffix(fc.Key, cr.CbName) {
+					continue
+				}
+				extra := map[string]*Term{}
+				top.cbArgTypes = map[string]types.Type{}
+				var ats []types.Type
+				if r := sig.Recv(); r != nil {
+					ats = append(ats, r.Type())
+				}
+				for i := 0; i < sig.Params().Len(); i++ {
+					ats = append(ats, sig.Params().At(i).Type())
+				}
+				for i, a := range args {
+					if i < len(ats) {
+						n := fmt.Sprintf("arg%d", i)
+						extra[n] = a
+						top.cbArgTypes[n] = ats[i]
+					}
+				}
+				t := top.evalClauseAt(cr, pre, nil, extra)
+				lab := cr.Label
+				if lab == "" {
+					lab = lastDot(fc.Key)
+				}
+				fr.oblige("callrequires", lab, pos, g, t, cr.Text)
+				top.cbArgTypes = nil
+			}
+		}
+		if top.top {
+			break
+		}
+	}
 	cf.evalOlds(pre)
 	if fc.HasAssigns {
 		var ts []target
@@ -357,6 +455,7 @@ func (fr *Frame) applyContract(s *State, g *Term, fc *FuncContract, callee *ssa.
 	na := c.Fresh("alloc", SInt)
 	x.assume(g, c.IntCmp(">=", na, pre.alloc))
 	s.alloc = na
+	x.bindHavocBound(na)
 	// effect counters: each call increments the caller's ghost counter of that name
 	for _, ef := range fc.Effects {
 		if v, ok := s.ghost[ef]; ok && bvWidth(v.sort) > 0 {
@@ -374,6 +473,12 @@ func (fr *Frame) applyContract(s *State, g *Term, fc *FuncContract, callee *ssa.
 	for _, e := range fc.Ensures {
 		t := cf.evalClauseAt(e, s, nil, extra)
 		x.assume(g, t)
+	}
+	for _, ce := range fc.CondEffects {
+		if v, ok := s.ghost[ce.Ghost]; ok && bvWidth(v.sort) > 0 {
+			cond := cf.evalClauseAt(ce, s, nil, extra)
+			s.ghost[ce.Ghost] = c.Ite(cond, c.BVBin("bvadd", v, c.BV(1, bvWidth(v.sort))), v)
+		}
 	}
 	return res
 }
@@ -752,6 +857,17 @@ func (fr *Frame) vocabularyCall(s *State, callee *ssa.Function, args []*Term) (*
 		return c.Eq(args[0], args[1]), true
 	case "ite":
 		return c.Ite(args[0], args[1], args[2]), true
+	case "same":
+		return c.Eq(args[0], args[1]), true
+	case "locked":
+		return c.Select(x.memOf(s, SBool), args[0]), true
+	case "typed":
+		if pt, ok := types.Unalias(callee.Signature.Params().At(0).Type()).Underlying().(*types.Pointer); ok {
+			if f := x.ptrTagFormula(args[0], pt.Elem()); f != nil {
+				return f, true
+			}
+		}
+		return c.True(), true
 	case "forall", "exists":
 		ci := x.closures[args[0]]
 		if ci == nil || ci.fn.Blocks == nil {
